@@ -71,4 +71,18 @@ PROPS = {
         assumptions=LOG_ASSUME + ["concurrent publishers are serialised by the partition leader's single message-processing loop with batch size 1 (extracted fact); their interleavings are the arrival orders"],
         trusted=["NATS delivery order to the leader = arrival order (any order is covered by the theorems)"],
     ),
+    "C19": dict(
+        lean_modules=["Liftbridge.Props.C19"],
+        gen_sources=["server/telemetry/telemetry.go", "server/config.go", "server/server.go"],
+        go_pkg="./server", test="TestVerifC19",
+        level="proof",
+        assumptions=[
+            "viper v1.21 lookup order for an AutomaticEnv key: os.LookupEnv(replacer(upper(prefix_key))) (non-empty) before the config file; GetBool = cast.ToBool (strconv.ParseBool, error => false) — modelled, validated by the configuration grid and the env-var-name probe on the real NewConfig",
+            "sources/requestSources/idSources are syntactic (go/ast, no type information): a local variable shadowing a package-level name, or data smuggled through the instance-id file under the data dir, is outside the table; the recorded requests of a server with planted user data are the behavioural cross-check",
+            "the only creation/start site of a collector is Server.Start (regenerated counts over all non-test files); other outbound HTTP of the process is not telemetry and not in scope",
+            "documented field list = /repo/CHANGELOG.md:69-75 (documentation/*.md does not mention telemetry; the external page it links is not available offline)",
+        ],
+        trusted=["net/http below http.DefaultTransport (the recorder replaces it; Collector.client has a nil Transport)", "Go runtime, encoding/json"],
+        timeout={"quick": 900, "thorough": 3600},
+    ),
 }
